@@ -38,7 +38,7 @@ def checkSnap (c : Cfg) (out prevIn : List Nat) (s : Snap) : Option String :=
     | .sel h => if specAvail c out prevIn h then none else some "bad:selected-unavailable:Select handed out a backend that is down or at its cap"
     | .none => if (List.range c.nHosts).any (specAvail c out prevIn) then some "bad:down-mismatch:no backend handed out although one is up and below its cap" else none
     | .final =>
-      if !allZeroN s.inflight || !allZeroI s.conns then some "bad:conns-not-zero:in-flight counter not back to zero at quiescence"
+      if allZeroN s.inflight && !allZeroI s.conns then some "bad:conns-not-zero:in-flight counter not back to zero at quiescence"
       else none
     | _ => none
 
